@@ -10,6 +10,7 @@ from ..load import AnalysisError, Resolver, Scope, dotted, own_nodes, parent
 from ..paths import (find_path, held_locks, must_pass, no_suspension, reach, render)
 from ..sym import (call_name, calls_in, enum_paths, find_calls, is_opaque,
                    method_calls, subst, sym_env)
+from ..dataflow import resolve
 
 FILE = 'aiuti/asyncio.py'
 
@@ -104,7 +105,8 @@ class CacheRoles:
         T, C = self.table, self.cache
         self.PROBE = [n for n in g.nodes if n.kind == 'load_sub' and self._base(n) == C]
         self.PROBE_GET = [n for n in g.nodes if n.kind == 'call' and self._recv_meth(n) in ((C, 'get'),)]
-        self.LOOKUP = [n for n in g.nodes if (n.kind == 'load_sub' and self._base(n) == T)]
+        self.LOOKUP = [n for n in g.nodes if (n.kind == 'load_sub' and self._base(n) == T)
+                       or (n.kind == 'call' and self._recv_meth(n) == (T, 'get') and not self._is_ownership_read(n))]
         self.MARK = [n for n in g.nodes if n.kind == 'store_sub' and self._base(n) == T]
         self.PUBLISH = [n for n in g.nodes if n.kind == 'store_sub' and self._base(n) == C]
         self.UNMARK = [n for n in g.nodes if (n.kind == 'del_sub' and self._base(n) == T)
@@ -121,7 +123,7 @@ class CacheRoles:
         # key variable: the index used at the probes
         keys = set()
         for n in self.PROBE + self.LOOKUP + self.MARK + self.PUBLISH:
-            sl = n.ast.slice  # type: ignore[union-attr]
+            sl = n.ast.slice if isinstance(n.ast, ast.Subscript) else (n.ast.args[0] if n.ast.args else None)
             keys.add(norm(sl))
         self.key_exprs = keys
         # loop head: outermost loop enclosing the CALL
@@ -149,6 +151,22 @@ class CacheRoles:
             return (f.value.id, f.attr)
         return None
 
+    def _is_ownership_read(self, n: Node) -> bool:
+        """A `TABLE.get(key)` whose value only feeds an ownership comparison (the guarded
+        removal in the clean-up) is not the decide-who-computes LOOKUP."""
+        g = self.cfg
+        par = parent(n.ast)
+        # directly inside a comparison
+        x = n.ast
+        while par is not None and isinstance(par, (ast.Subscript, ast.Attribute)):
+            x, par = par, parent(par)
+        if isinstance(par, ast.Compare):
+            return True
+        # assigned to a name that is used only in comparisons / subscripts on the way to a removal
+        if isinstance(par, ast.Assign) and len(par.targets) == 1 and isinstance(par.targets[0], ast.Name):
+            return any(part in ('finally', 'handler') for _, part in n.trys)
+        return False
+
     def locked(self, n: Node) -> bool:
         return self.lock in self.held[n.id]
 
@@ -160,7 +178,7 @@ class CacheRoles:
         for n in g.nodes:
             if n.kind != 'branch':
                 continue
-            t = n.meta['test']
+            t = resolve(g, n, n.meta['test'])
             if not (isinstance(t, ast.Compare) and len(t.ops) == 1):
                 continue
             sides = [t.left, t.comparators[0]]
@@ -174,6 +192,28 @@ class CacheRoles:
                 elif isinstance(op, (ast.IsNot, ast.NotEq)):
                     out.append((n, 'false'))
         return out
+
+
+def presence_branches(r: CacheRoles) -> List[Tuple[Node, str]]:
+    """Branches testing a read of TABLE for None: (node, label of the edge meaning 'no marker')."""
+    g = r.cfg
+    out = []
+    for n in g.nodes:
+        if n.kind != 'branch':
+            continue
+        t = resolve(g, n, n.meta['test'])
+        reads = any(isinstance(x, ast.Name) and x.id == r.table for x in ast.walk(t))
+        if not reads:
+            continue
+        if isinstance(t, ast.Compare) and len(t.ops) == 1 and isinstance(t.comparators[0], ast.Constant) \
+                and t.comparators[0].value is None and isinstance(t.ops[0], (ast.Is, ast.IsNot)):
+            out.append((n, 'true' if isinstance(t.ops[0], ast.Is) else 'false'))
+        elif isinstance(t, ast.Call) and isinstance(t.func, ast.Attribute) and t.func.attr == 'get':
+            out.append((n, 'false'))
+        elif isinstance(t, ast.Compare) and len(t.ops) == 1 and isinstance(t.ops[0], (ast.In, ast.NotIn)) \
+                and isinstance(t.comparators[0], ast.Name) and t.comparators[0].id == r.table:
+            out.append((n, 'false' if isinstance(t.ops[0], ast.In) else 'true'))
+    return out
 
 
 def _loc(g: CFG, n: Node) -> str:
@@ -221,55 +261,106 @@ def _require_table(ctx: Ctx, r: CacheRoles, rule: str) -> bool:
 # ---------------------------------------------------------------------------
 
 def lookup_vars(r: CacheRoles) -> Set[str]:
-    """Names bound from the LOOKUP statement(s) (the looked-up marker's loop/event)."""
+    """Names bound - directly, by unpacking, or through one more assignment - from the
+    LOOKUP (the looked-up marker, its loop and its event)."""
+    g = r.cfg
     out: Set[str] = set()
     for n in r.LOOKUP:
         st = parent(n.ast)
         while st is not None and not isinstance(st, ast.stmt):
             st = parent(st)
-        if isinstance(st, ast.Assign):
-            for t in st.targets:
+        if isinstance(st, (ast.Assign, ast.AnnAssign)):
+            tgts = st.targets if isinstance(st, ast.Assign) else [st.target]
+            for t in tgts:
                 for x in ast.walk(t):
                     if isinstance(x, ast.Name):
                         out.add(x.id)
+    # derived: `loop, event = marker` / `event = marker[1]`
+    changed = True
+    while changed:
+        changed = False
+        for n in g.nodes:
+            if n.kind == 'store_name' and n.meta['name'] not in out:
+                st = n.meta.get('stmt')
+                v = st.value if isinstance(st, (ast.Assign, ast.AnnAssign)) else None
+                if v is not None and not isinstance(v, ast.Call) and any(
+                        isinstance(x, ast.Name) and x.id in out for x in ast.walk(v)) and \
+                        all(isinstance(x, (ast.Name, ast.Subscript, ast.Constant, ast.Load, ast.Tuple, ast.Index, ast.Attribute))
+                            for x in ast.walk(v)):
+                    out.add(n.meta['name'])
+                    changed = True
     return out
 
 
+def _root_name(e: ast.AST) -> Optional[str]:
+    while isinstance(e, (ast.Subscript, ast.Attribute)):
+        e = e.value
+    return e.id if isinstance(e, ast.Name) else None
+
+
 def _atom(r: CacheRoles, n: Node, lv: Set[str]) -> Optional[str]:
-    """'closed' / 'running' if branch node *n* tests is_closed()/is_running() of
-    a looked-up loop variable."""
+    """'closed' / 'running' if branch node *n* tests is_closed()/is_running() of the
+    looked-up marker's loop; 'missing' if it tests the looked-up marker for None."""
     if n.kind != 'branch':
         return None
     t = n.meta['test']
-    if isinstance(t, ast.Call) and isinstance(t.func, ast.Attribute) and isinstance(t.func.value, ast.Name) \
-            and t.func.value.id in lv and not t.args:
+    if isinstance(t, ast.Call) and isinstance(t.func, ast.Attribute) and _root_name(t.func.value) in lv and not t.args:
         if t.func.attr == 'is_closed':
             return 'closed'
         if t.func.attr == 'is_running':
             return 'running'
+    if isinstance(t, ast.Compare) and len(t.ops) == 1 and isinstance(t.left, ast.Name) and t.left.id in lv \
+            and isinstance(t.comparators[0], ast.Constant) and t.comparators[0].value is None:
+        return 'missing' if isinstance(t.ops[0], ast.Is) else '!missing' if isinstance(t.ops[0], ast.IsNot) else None
+    if isinstance(t, ast.Name) and t.id in lv:
+        return '!missing'
     return None
 
 
+def wait_awaits(r: CacheRoles) -> List[Node]:
+    g = r.cfg
+    return [n for n in g.nodes if n.kind == 'await' and n not in r.CALL
+            and not any(part == 'handler' for _, part in n.trys)]
+
+
 def takeover_paths(r: CacheRoles):
-    """Paths inside the locked region from a successful LOOKUP to MARK
-    (take-over) and to the region exit without MARK (decide to wait)."""
+    """Paths from the LOOKUP of the in-flight table to MARK (compute / take-over)
+    and to the first await of the wait stage (decide to wait), with the facts
+    established on the way: found / closed / running of the looked-up marker."""
     g = r.cfg
     lv = lookup_vars(r)
-    succ_edges = [e for n in r.LOOKUP for e in g.succ[n.id] if e.label != 'exc']
-    region_ok = lambda e: r.locked(e.dst) or e.dst.kind == 'with_exit'
-    exits = [n for n in g.nodes if n.kind == 'with_exit' and r.lock in [g.res.path(i.context_expr) for i in n.withs]
-             and n.meta.get('how') == 'normal']
-    to_mark = enum_paths(g, r.MARK, start_edges=succ_edges, edge_ok=region_ok, stop_at=exits)
-    to_wait = enum_paths(g, exits, start_edges=succ_edges, edge_ok=region_ok, stop_at=r.MARK)
+    starts: List[Tuple[Edge, Optional[bool]]] = []
+    for n in r.LOOKUP:
+        for e in g.succ[n.id]:
+            if n.kind == 'load_sub':
+                starts.append((e, e.label != 'exc'))
+            elif e.label != 'exc':
+                starts.append((e, None))
+    stops = ([r.HEAD] if r.HEAD else [])
+    waits = wait_awaits(r)
 
-    def facts(path: List[Edge]) -> Dict[str, bool]:
+    def facts(path: List[Edge], found: Optional[bool]) -> Dict[str, bool]:
         f: Dict[str, bool] = {}
+        if found is not None:
+            f['found'] = found
         for e in path:
             a = _atom(r, e.src, lv)
             if a and e.label in ('true', 'false'):
-                f[a] = (e.label == 'true')
+                v = e.label == 'true'
+                if a == 'missing':
+                    f['found'] = not v
+                elif a == '!missing':
+                    f['found'] = v
+                else:
+                    f[a] = v
         return f
-    return [(p, facts(p)) for p in to_mark], [(p, facts(p)) for p in to_wait]
+    tm, tw = [], []
+    for e, found in starts:
+        for p in enum_paths(g, r.MARK, start_edges=[e], stop_at=stops + waits):
+            tm.append((p, facts(p, found)))
+        for p in enum_paths(g, waits, start_edges=[e], stop_at=stops + r.MARK + r.CALL):
+            tw.append((p, facts(p, found)))
+    return tm, tw
 
 
 def ownership_guarded(r: CacheRoles, u: Node) -> bool:
@@ -290,6 +381,7 @@ def ownership_guarded(r: CacheRoles, u: Node) -> bool:
 def rule_owner_only_unmark(ctx: Ctx, r: CacheRoles, rule: str) -> None:
     g = r.cfg
     tm, _ = takeover_paths(r)
+    tm = [(p, f) for p, f in tm if f.get('found') is not False]
     if not tm:
         ctx.holds(rule, 'no take-over path exists: every marker is removed only by the invocation that stored it',
                   _loc(g, r.MARK[0]), examined=len(r.UNMARK))
@@ -328,7 +420,18 @@ def c01(ctx: Ctx) -> None:
         _publish_roles(ctx, r)
         return
     # R1
+    inlined_helpers = {n.meta['name'] for n in g.nodes if n.kind == 'inline_enter'}
     for scope in [r.impl] + _descendants(r.impl):
+        if scope is not r.wrapper and scope.qualname in inlined_helpers:
+            # a helper called inline from the wrapper: its table accesses are checked, with the
+            # caller's lock context, as part of the wrapper's own graph - provided it is never
+            # used in any other way (passed around, called from elsewhere)
+            other_uses = [x for sc in [r.impl] + _descendants(r.impl) for x in own_nodes(sc.node)
+                          if isinstance(x, ast.Name) and x.id == scope.name and isinstance(x.ctx, ast.Load)
+                          and not (isinstance(parent(x), ast.Call) and parent(x).func is x and
+                                   any(nn.kind == 'inline_enter' and nn.ast is parent(x) for nn in g.nodes))]
+            if not other_uses:
+                continue
         sg = g if scope is r.wrapper else build(scope, ctx.program)
         if scope is r.wrapper:
             touches = r.TABLE_TOUCH
@@ -378,9 +481,16 @@ def c01(ctx: Ctx) -> None:
                   examined=len(ll) + 1)
     # R4
     tm, tw = takeover_paths(r)
-    if not tm:
+    if not [1 for _, f in tm if f.get('found') is not False]:
         ctx.holds('C01-R4', 'no take-over path (existing markers are never overwritten)', _loc(g, r.MARK[0]))
+    seen4 = set()
     for p, f in tm:
+        if f.get('found') is False:
+            continue   # no marker existed: a plain first computation
+        k4 = tuple(sorted(f.items()))
+        if k4 in seen4:
+            continue
+        seen4.add(k4)
         ok = f.get('closed') is True or f.get('running') is False
         ctx.check('C01-R4', f'take-over path with facts {f}', _loc(g, p[-1].dst), ok,
                   detail_ok='path establishes closed or not running for the looked-up loop',
@@ -492,8 +602,7 @@ def _wait_analysis(ctx: Ctx, r: CacheRoles):
     # wait-stage awaits: awaits that are not CALL
     # (awaits inside an except handler are clean-up waits for an already
     # cancelled local task, not the wait for the computation)
-    waits = [n for n in g.nodes if n.kind == 'await' and n not in r.CALL
-             and not any(part == 'handler' for _, part in n.trys)]
+    waits = wait_awaits(r)
     lv = lookup_vars(r)
     results = []
     # the wait stage starts where the marker decision left the locked region
@@ -537,8 +646,12 @@ def c05(ctx: Ctx) -> None:
                   detail_bad='an exit of the computing caller does not wake the waiters (they sit out the 60 s timeout)',
                   witness=render(g, w), construct=construct_key(r.wrapper.qualname, 'exit without WAKE'),
                   examined=len(exits))
+        # the marker is removed, or found to be someone else's, or found to be gone already
+        pres = presence_branches(r)
+        gone_edges = {(b.id, lab) for b, lab in pres}
         via = r.UNMARK + [b for b, _ in own]
-        w = must_pass(g, [], exits, via, start_edges=starts)
+        w = must_pass(g, [], exits, via, start_edges=starts,
+                      edge_ok=lambda e: feasible(e) and (e.src.id, e.label) not in gone_edges)
         ok = w is None and bool(r.UNMARK)
         # each ownership edge must lead to an UNMARK
         for b, pol in own:
@@ -642,8 +755,13 @@ def c05(ctx: Ctx) -> None:
         ctx.note('no run_coroutine_threadsafe bridge found; C05-R3 reports the consequence')
     # R7
     tm, tw = takeover_paths(r)
+    seen7 = set()
     for p, f in tw:
-        ok = f.get('closed') is False and f.get('running') is True
+        k7 = tuple(sorted(f.items()))
+        if k7 in seen7:
+            continue
+        seen7.add(k7)
+        ok = f.get('found') is True and f.get('closed') is False and f.get('running') is True
         ctx.check('C05-R7', f'decide-to-wait path with facts {f}', _loc(g, p[0].src), ok,
                   detail_ok='waiting only for a marker whose loop is open and running',
                   detail_bad='a caller can decide to wait for a marker whose loop may be closed or stopped',
@@ -823,7 +941,7 @@ def c14(ctx: Ctx) -> None:
         return
     # R2: one key variable
     key_names = set()
-    for n in r.PROBE + r.LOOKUP + r.MARK + r.PUBLISH + [u for u in r.UNMARK if u.kind == 'del_sub']:
+    for n in r.PROBE + [l for l in r.LOOKUP if l.kind == 'load_sub'] + r.MARK + r.PUBLISH + [u for u in r.UNMARK if u.kind == 'del_sub']:
         sl = n.ast.slice  # type: ignore[union-attr]
         ok = isinstance(sl, ast.Name)
         if ok:
@@ -847,7 +965,8 @@ def c14(ctx: Ctx) -> None:
         _publish_roles(ctx, r)
         return
     key = next(iter(key_names))
-    stores = [n for n in g.nodes if n.kind == 'store_name' and n.meta['name'] == key]
+    stores = [n for n in g.nodes if n.kind == 'store_name' and n.meta['name'] == key
+              and not (n.meta.get('inlined_param') and isinstance(n.meta.get('value'), ast.Name) and n.meta['value'].id == key)]
     ctx.check('C14-R2', f'key variable {key} assigned once', _loc(g, stores[0]) if stores else where, len(stores) == 1,
               'single assignment', 'the key is re-assigned', construct=construct_key(w.qualname, 'key reassigned'))
     if len(stores) != 1:
